@@ -162,6 +162,10 @@ struct Ctx {
     log: TLog,
     wall: Arc<AtomicI64>,
     sources: Vec<TimeSource>,
+    /// plan key `fresh_sources`: every install / explicit use gets a `TimeSource` of its own, moved in - the library's
+    /// objects (guards, stopwatches, timers, timestamps) hold the only handles on it
+    fresh: bool,
+    tick: u64,
     /// model of the thread-local override stack (indices into `sources`)
     tl_stack: Vec<usize>,
     tl_guards: Vec<metrique_timesource::ThreadLocalTimeSourceGuard>,
@@ -178,6 +182,15 @@ struct Ctx {
 }
 
 impl Ctx {
+    fn source(&self, i: usize) -> TimeSource {
+        if self.fresh {
+            let (rate, off) = SOURCES[i];
+            TimeSource::custom(SimTime { wall_ns: self.wall.clone(), rate, wall_off_ns: off, tick_ns: self.tick })
+        } else {
+            self.sources[i].clone()
+        }
+    }
+
     /// the source the resolution order (thread-local, then runtime) selects right now
     fn current(&self) -> Option<usize> {
         self.tl_stack.last().copied().or(if self.in_rt { self.rt_src } else { None })
@@ -186,7 +199,7 @@ impl Ctx {
     fn sw(&mut self) -> &mut Stopwatch {
         if self.sw.is_none() {
             let (sw, src) = match self.explicit_sw {
-                Some(i) => (Stopwatch::new_from_timesource(self.sources[i].clone()), i),
+                Some(i) => (Stopwatch::new_from_timesource(self.source(i)), i),
                 None => (Stopwatch::new(), self.current().unwrap_or(0)),
             };
             self.sw_rate = SOURCES[src].0;
@@ -211,7 +224,7 @@ impl Ctx {
             "adv" => detsim::advance_clock(ju(op, "ns", 0)),
             "ts_push" => {
                 let i = ju(op, "src", 0) as usize % self.sources.len();
-                self.tl_guards.push(set_time_source(self.sources[i].clone()));
+                self.tl_guards.push(set_time_source(self.source(i)));
                 self.tl_stack.push(i);
             }
             "ts_pop" => {
@@ -223,7 +236,7 @@ impl Ctx {
                 let i = ju(op, "src", 0) as usize % self.sources.len();
                 let inner: Vec<Value> = ja(op, "ops").to_vec();
                 self.tl_stack.push(i);
-                let ts = self.sources[i].clone();
+                let ts = self.source(i);
                 if jb(op, "panics", false) {
                     // the closure panics at its end (caught here): the override must be gone afterwards
                     let _ = std::panic::catch_unwind(std::panic::AssertUnwindSafe(|| {
@@ -247,7 +260,7 @@ impl Ctx {
             "rt_set" => {
                 if let (Some(rt), None) = (&self.rt, &self.rt_guard) {
                     let i = ju(op, "src", 3) as usize % self.sources.len();
-                    self.rt_guard = Some(metrique_timesource::tokio::set_time_source_for_runtime(rt.handle(), self.sources[i].clone()));
+                    self.rt_guard = Some(metrique_timesource::tokio::set_time_source_for_runtime(rt.handle(), self.source(i)));
                     self.rt_src = Some(i);
                 }
             }
@@ -261,7 +274,7 @@ impl Ctx {
                 if let (Some(rt), Some(_)) = (&self.rt, &self.rt_guard) {
                     let i = ju(op, "src", 0) as usize % self.sources.len();
                     let handle = rt.handle().clone();
-                    let src = self.sources[i].clone();
+                    let src = self.source(i);
                     let r = std::panic::catch_unwind(std::panic::AssertUnwindSafe(move || metrique_timesource::tokio::set_time_source_for_runtime(&handle, src)));
                     self.log.log(TK::DoubleInstall { panicked: r.is_err() });
                 }
@@ -387,7 +400,7 @@ impl Ctx {
                 let (t, src) = match op.get("explicit_src").and_then(|x| x.as_u64()) {
                     Some(i) => {
                         let i = i as usize % self.sources.len();
-                        (Timer::start_now_with_timesource(self.sources[i].clone()), i)
+                        (Timer::start_now_with_timesource(self.source(i)), i)
                     }
                     None => (Timer::start_now(), self.current().unwrap_or(0)),
                 };
@@ -459,7 +472,7 @@ impl Ctx {
                 } else {
                     expect_wall = self.wall.load(Ordering::SeqCst) + off;
                     let t = match explicit {
-                        Some(i) => Timestamp::new_from_time_source(self.sources[i].clone()),
+                        Some(i) => Timestamp::new_from_time_source(self.source(i)),
                         None => Timestamp::now(),
                     };
                     self.wall.store(ji(op, "then_wall_ns", 0), Ordering::SeqCst);
@@ -490,6 +503,8 @@ fn time_main(plan: &Value, log: TLog) {
         log: log.clone(),
         wall,
         sources,
+        fresh: jb(plan, "fresh_sources", false),
+        tick,
         tl_stack: vec![],
         tl_guards: vec![],
         rt: None,
@@ -892,6 +907,9 @@ impl Scenario for Timers {
         if h % 8 == 0 {
             plan["far_future_s"] = json!([18_446_744_074u64, 18_500_000_000, 253_402_300_799, 4_000_000_000_000][(h / 8 % 4) as usize]);
         }
+        // half of the runs: no time source is shared with the harness - each install / explicit use moves a source of
+        // its own into the library, which then holds the only handle on it
+        plan["fresh_sources"] = json!(mix(h, 0x5eed) % 2 == 0);
         plan
     }
     fn run(&self, plan: &Value) -> Report {
